@@ -96,7 +96,7 @@ pub fn run(ctx: &Ctx) -> Report {
     Report {
         acc,
         exhaustive: true,
-        rule: "every 16-bit type-field value; every (class, method) pair 4x4096 (also as the header of messages carrying one attribute of each of 8 kinds, built directly and after into_owned); transaction ids: walking one/zero over 128 bits, every byte lane x 256 values x 3 backgrounds, 16-bit windows at every bit offset, boundary patterns; each case is distinct by construction".into(),
+        rule: "every 16-bit type-field value; every (class, method) pair 4x4096 (also as the header of messages carrying one attribute of each of 8 kinds, or an application attribute whose value length changes between add_attribute and build, built directly and after into_owned); transaction ids: walking one/zero over 128 bits, every byte lane x 256 values x 3 backgrounds, 16-bit windows at every bit offset, boundary patterns; each case is distinct by construction".into(),
         bounds: json!({"type_field_values": 65536, "class_method_pairs": 16384, "tids": "~13 000 (see rule)", "generate_observations": "2^24 + 2^16 (thorough 2^32 + 2^16) consecutive calls on one thread"}),
         assumptions: vec!["TransactionId::generate(): only the masking constructor it goes through is enumerated; RNG output is observed, not explored".into()],
         ..Default::default()
@@ -187,9 +187,15 @@ pub fn judge(case: &Case, acc: &mut Acc) {
                 let xa = XorMappedAddress::new("192.0.2.1:3478".parse().unwrap(), tidv.into());
                 let ua = UnknownAttributes::new(&[0x7F00.into()]);
                 let creds: stun_types::message::MessageIntegrityCredentials = stun_types::message::ShortTermCredentials::new("pw".to_owned()).into();
-                for which in 0..8u8 {
+                // (variants 8..=11: an application attribute whose value the application changes between
+                // add_attribute and build - 3 -> 8, 8 -> 3, 0 -> 40, 40 -> 0 bytes)
+                let late = crate::engine_in::prog::MutAttr::default();
+                for which in 0..12u8 {
                     let mut b = real::builder(c, m, tidv);
+                    let (before, after) = [(3u16, 8u16), (8, 3), (0, 40), (40, 0)][(which as usize).saturating_sub(8) % 4];
+                    late.len.store(before, std::sync::atomic::Ordering::SeqCst);
                     let r = match which {
+                        8..=11 => b.add_attribute(&late).map_err(|e| format!("{e:?}")),
                         0 => b.add_attribute(&ec).map_err(|e| format!("{e:?}")),
                         1 => b.add_raw_attribute(RawAttribute::new(0x0009.into(), &[0, 0, 4, 1, b'x'])).map_err(|e| format!("{e:?}")),
                         2 => b.add_attribute(&sw).map_err(|e| format!("{e:?}")),
@@ -201,6 +207,10 @@ pub fn judge(case: &Case, acc: &mut Acc) {
                     };
                     if r.is_err() {
                         continue;
+                    }
+                    if which >= 8 {
+                        let _ = b.byte_len();
+                        late.len.store(after, std::sync::atomic::Ordering::SeqCst);
                     }
                     let owned = b.clone().into_owned();
                     for (name, bytes) in [("build", b.build()), ("into_owned+build", owned.build())] {
